@@ -221,11 +221,15 @@ GUARDS = [
     (JDSRC, "jdatasrc.c", "WARNMS(cinfo, JWRN_JPEG_EOF); cinfo->src->next_input_byte = mybuffer; cinfo->src->bytes_in_buffer = 2; return TRUE;", "mem source fake EOI"),
     (JDSRC, "jdatasrc.c", "(JOCTET)0xFF, (JOCTET)JPEG_EOI, 0, 0", "mem source fake EOI bytes"),
 ]
+# A missing guard does not stop the translation (the model must still extract so that the
+# correspondence can exhibit a concrete stream); it makes the generated fact
+# guards_all_present false, which props/C01.v proves to be true.
 guard_names = []
 for src, fn, text, what in GUARDS:
-    if norm(text) not in norm(src):
-        die("%s: guard mirrored by the model is gone (%s): %s" % (fn, what, text[:90]))
-    guard_names.append(what)
+    ok = norm(text) in norm(src)
+    if not ok:
+        sys.stderr.write("gen_Limits: %s: guard mirrored by the model is gone (%s): %s\n" % (fn, what, text[:120]))
+    guard_names.append((fn, what, ok))
 
 # SOF dispatch of read_markers: which SOFn are accepted with which (prog, lossless, arith)
 sof = []
@@ -274,7 +278,7 @@ out = []
 w = out.append
 w("(* GENERATED by tools/gen_Limits.py from src/jpeglib.h jmorecfg.h jdhuff.h jdmarker.c jutils.c jpegint.h jdhuff.c")
 w("   jdinput.c jdphuff.c jdarith.c jdlhuff.c jdlossls.c jddiffct.c jdatasrc*.c -- do not edit *)")
-w("From Coq Require Import List ZArith Bool.\nImport ListNotations.\nLocal Open Scope Z_scope.\n")
+w("From Coq Require Import List ZArith Bool String.\nImport ListNotations.\nLocal Open Scope string_scope.\nLocal Open Scope Z_scope.\n")
 for k in ["DCTSIZE", "DCTSIZE2", "NUM_QUANT_TBLS", "NUM_HUFF_TBLS", "NUM_ARITH_TBLS", "MAX_COMPS_IN_SCAN",
           "MAX_SAMP_FACTOR", "C_MAX_BLOCKS_IN_MCU", "D_MAX_BLOCKS_IN_MCU", "MAX_COMPONENTS", "JPEG_MAX_DIMENSION",
           "HUFF_LOOKAHEAD", "JPEG_EOI", "JPEG_RST0", "APP0_DATA_LEN", "APP14_DATA_LEN", "APPN_DATA_LEN"]:
@@ -301,6 +305,8 @@ w("Definition std_huff : list (bool * Z * list Z * list Z) :=\n  [%s]." % ";\n  
     "(%s, %s, [%s], [%s])" % ("true" if a == "dc" else "false", b, "; ".join(map(str, std[bn])), "; ".join(map(str, std[vn])))
     for a, b, bn, vn in slots))
 w("")
-w("(* guards of the C text found verbatim (whitespace-insensitive) by the translator: %d *)" % len(guard_names))
-w("Definition guards_present : Z := %d." % len(guard_names))
+w("(* guards of the C text the model mirrors: (file, what, found verbatim modulo whitespace) *)")
+w("Definition guards : list (string * string * bool) :=\n  [%s]." % ";\n   ".join(
+    '("%s", "%s", %s)' % (fn, what, "true" if ok else "false") for fn, what, ok in guard_names))
+w("Definition guards_all_present : bool := forallb (fun g => snd g) guards.")
 print("\n".join(out))
